@@ -463,6 +463,12 @@ func (p *MinQueriesPlanner) extractSelection(ctx *PlanningContext, config *extra
 		case *ast.InlineFragment:
 			ctx.Gateway.logger.Debug("found an inline fragment. extracting to ", config.insertionPoint, ". Parent insertion", config.insertionPoint)
 
+			// an inline fragment without a type condition applies to the enclosing type
+			fragmentType := selection.TypeCondition
+			if fragmentType == "" {
+				fragmentType = config.parentType
+			}
+
 			newWrapper := make(ast.SelectionSet, len(config.wrapper))
 			copy(newWrapper, config.wrapper)
 			newWrapper = append(newWrapper, selection)
@@ -476,7 +482,7 @@ func (p *MinQueriesPlanner) extractSelection(ctx *PlanningContext, config *extra
 				plan:           config.plan,
 				insertionPoint: config.insertionPoint,
 
-				parentType: selection.TypeCondition,
+				parentType: fragmentType,
 				selection:  selection.SelectionSet,
 				wrapper:    newWrapper,
 			})
@@ -685,6 +691,12 @@ func (p *MinQueriesPlanner) groupSelectionSet(ctx *PlanningContext, config *extr
 		case *ast.InlineFragment:
 			ctx.Gateway.logger.Debug("Encountered inline fragment on ", selection.TypeCondition)
 
+			// an inline fragment without a type condition applies to the enclosing type
+			fragmentType := selection.TypeCondition
+			if fragmentType == "" {
+				fragmentType = config.parentType
+			}
+
 			// we need to split the inline fragment into an inline fragment for each location that this cover
 			// and then add those inline fragments to the final selection
 
@@ -695,7 +707,7 @@ func (p *MinQueriesPlanner) groupSelectionSet(ctx *PlanningContext, config *extr
 				switch fragmentSelection := fragmentSelection.(type) {
 				case *ast.Field:
 					// look up the location of the field
-					fieldLocations, err := config.locations.URLFor(selection.TypeCondition, fragmentSelection.Name)
+					fieldLocations, err := config.locations.URLFor(fragmentType, fragmentSelection.Name)
 					if err != nil {
 						return nil, nil, err
 					}
